@@ -86,8 +86,10 @@ func MetaEvent(r *mon.Rand, allowBig bool) []byte {
 		p := r.Bytes(knownMetaFixed[t])
 		switch t {
 		case 0x51:
-			if p[0] == 0 && p[1] == 0 && p[2] == 0 {
-				p[2] = 1
+			// the corners of the 24-bit value now and then: 0 (a legal value of the field, no tempo a player could use),
+			// 1, the largest, 120 BPM
+			if r.P(1, 8) {
+				p = append([]byte(nil), [][]byte{{0, 0, 0}, {0, 0, 1}, {0xFF, 0xFF, 0xFF}, {0x07, 0xA1, 0x20}}[r.Intn(4)]...)
 			}
 		case 0x58:
 			p[1] &= 7
@@ -128,6 +130,10 @@ func SysexEvent(r *mon.Rand, allowBig bool) []byte {
 	case 1: // F7 continuation / escape (arbitrary bytes allowed)
 		if r.Bool() {
 			p = r.Bytes(n)
+		}
+		if r.P(1, 3) {
+			// what the escape is there for: real-time and system common bytes sent as they are
+			p = [][]byte{{0xF8}, {0xFA}, {0xFC}, {0xFE}, {0xFF}, {0xF8, 0xF8}, {0xFB, 0xF8, 0xFE}, {0xF3, 0x01}, {0xF6}, {0xF2, 0x00, 0x08}}[r.Intn(10)]
 		}
 		if r.P(1, 5) {
 			embedMarker(r, p)
